@@ -359,9 +359,9 @@ def run(ctx):
     pin_stage(ctx)
     for c in corpus_cases():
         (check_switch_case if c.get("switch") else check_case)(ctx, c)
-    for _ in range(ctx.n(40, 500)):
+    for _ in range(ctx.n(30, 500)):
         check_case(ctx, gen_case(ctx.rng, ctx.thorough()))
-    for _ in range(ctx.n(24, 300)):
+    for _ in range(ctx.n(16, 300)):
         check_switch_case(ctx, gen_switch_case(ctx.rng, ctx.thorough()))
     cal = ctx.extra.get("calibration", {})
     ok = all(v <= 1e-10 for k, v in cal.items() if k.endswith("antihermiticity_defect"))
@@ -378,9 +378,11 @@ def run(ctx):
     ctx.trusted_base += ["C06_H_hermitian / mpo_hermitian for the Hermiticity of the two Hamiltonians",
                          "source pin + random-vector probe tie the Coq lemmas' operator shapes to the code"]
     ctx.assumptions += [
-        "CONSERVATION ITSELF IS VALIDATED, NOT PROVED: norm, energy and second moment are measured on the real "
+        "ON THE REAL BACKENDS CONSERVATION IS VALIDATED, NOT PROVED: norm, energy and second moment are measured on the real "
         "backends and compared with bounds (1..10) x steps x backend tolerance, i.e. >= 100 x the largest drift observed on the current tree (evidence: calibration)",
-        "'exp of an anti-Hermitian operator is unitary' is a premise of the informal argument, not an axiom and not a theorem here",
+        "the conservation THEOREMS hold in exact arithmetic under the premises StarLaws (three laws of an abstract matrix "
+        "exponential + *-algebra / inner-product laws); 'exp of anti-Hermitian is unitary' is derived from them; that "
+        "krylov_exp computes such an exponential is validated only",
         "emu-mps bounds hold for the tested regime (small bond dimension, nearest-neighbour dominated chains)"]
     ctx.extra["not_proved"] = ["norm conservation", "energy / second-moment conservation", "effect of MPS truncation"]
 
@@ -394,13 +396,27 @@ def replay(ctx, path):
 
 META = {
     "category": "proof",
-    "technique": ("thin Coq layer (generator anti-Hermitian over any ring with involution, citing C06_H_hermitian) + "
-                  "source pin and runtime probe + conservation falsifier on both backends"),
-    "text": ("Proved: (anti-real scalar) x (Hermitian) is anti-Hermitian; the scalars -1j*dt, -1j*c*dt, -c*1j*dt used by "
-             "EvolveStateVector.evolve / evolve_pair / evolve_single are anti-real for real c, dt; with C06 the emu-sv "
-             "generator is anti-Hermitian for every N. CONSERVATION ITSELF (norm, energy, <H^2> per constant window) is "
-             "VALIDATED, NOT PROVED: measured on emu-sv (2-12 atoms) and emu-mps (2-20 atom chains) against bounds of "
-             "1-10 x steps x tolerance (>= 100 x the observed drift)."),
-    "note": ("Coq content is thin by design (DESIGN.md §5). 'exp of anti-Hermitian is unitary' is a premise, not "
-             "axiomatised. MPO Hermiticity is cited (MpoHamProofs.mpo_hermitian), not re-instantiated."),
+    "technique": ("Coq: whole-run conservation theorems over an abstract non-commutative matrix *-algebra whose "
+                  "exponential is constrained only by three laws (premises) + generator anti-Hermitian over any ring "
+                  "with involution (citing C06_H_hermitian) + source pin and runtime probe; conservation falsifier on "
+                  "both backends incl. runs whose interaction matrix switches"),
+    "text": ("Proved (closed theorems, every number of steps, every dt list): from the premises StarLaws (associativity, "
+             "action, adjoint/inner-product law, scalar laws and the three exponential laws exp(A^+)=exp(A)^+, "
+             "exp(A)exp(-A)=1, A exp(c.A)=exp(c.A) A): 'exp of an anti-Hermitian operator is unitary' (now a derived "
+             "lemma); every propagator exp(s.H) with anti-real s and Hermitian H is unitary; the ordered fold of any list "
+             "of such propagators (C01's fold shape; instantiated on the emu-sv step loop) preserves <psi|psi> at every "
+             "step; inside a window of constant H, <H>, <H H> and the norm are the same at every step. Premises "
+             "satisfiable with non-trivial unitaries (dual-number instance). Also: (anti-real scalar) x (Hermitian) is "
+             "anti-Hermitian; the scalars -1j*dt, -1j*c*dt, -c*1j*dt used by EvolveStateVector.evolve / evolve_pair / "
+             "evolve_single are anti-real; with C06 the emu-sv generator is anti-Hermitian for every N. NOT proved, "
+             "VALIDATED only: that krylov_exp approximates that exponential and that emu-mps truncation preserves the "
+             "laws: norm, energy and <H^2> per constant (drive, matrix) window are measured on emu-sv (2-12 atoms) and "
+             "emu-mps (2-20 atom chains) against bounds of 1-10 x steps x tolerance (>= 100 x the observed drift), and "
+             "compared with dense values when the interaction matrix switches."),
+    "note": ("PREMISES of the conservation theorems (explicit hypotheses, no Axiom/Parameter): the record StarLaws of "
+             "Proofs/StarAlgProofs.v, in particular the three laws of the abstract matrix exponential m_exp; they are not "
+             "proved for any concrete exponential of complex matrices (shown satisfiable on a dual-number algebra). "
+             "Axioms under Print Assumptions: functional_extensionality_dep only (adjoint-form restatement). MPO "
+             "Hermiticity is cited (MpoHamProofs.mpo_hermitian), not re-instantiated. Krylov approximation of exp and "
+             "MPS truncation remain validated only."),
 }
